@@ -8,6 +8,7 @@ mod engine_heap;
 mod engine_purity;
 mod engine_session;
 mod gen_program;
+mod miri_adjunct;
 mod orch;
 mod replay;
 mod rng;
@@ -44,6 +45,11 @@ fn main() {
             let tier = acc::Tier::parse(&args[4]);
             let solo = args.get(6).map(|s| s == "solo").unwrap_or(false);
             orch::worker_main(&args[2], seed, tier, &args[5], solo)
+        }
+        Some("miri") => {
+            let seed: u64 = args[2].parse().unwrap();
+            let n: u64 = args.get(4).map(|s| s.parse().unwrap()).unwrap_or(8);
+            miri_adjunct::main(seed, &args[3], n)
         }
         Some("fresh") => engine_purity::fresh_main(),
         Some("digests") => {
